@@ -449,8 +449,18 @@ func BackSlice(v ssa.Value, follow func(c *ssa.Call) bool) map[ssa.Value]bool {
 		case *ssa.Alloc:
 			// local variable: follow stores into it
 			for _, r := range *x.Referrers() {
-				if st, ok := r.(*ssa.Store); ok && st.Addr == x {
-					walk(st.Val)
+				switch st := r.(type) {
+				case *ssa.Store:
+					if st.Addr == x {
+						walk(st.Val)
+					}
+				case *ssa.IndexAddr, *ssa.FieldAddr:
+					// stores into an element/field of the local (e.g. the backing array of a variadic argument)
+					for _, r2 := range *st.(ssa.Value).Referrers() {
+						if s2, ok := r2.(*ssa.Store); ok && s2.Addr == st.(ssa.Value) {
+							walk(s2.Val)
+						}
+					}
 				}
 			}
 		}
